@@ -80,8 +80,39 @@ AcceptCodec(e) ==
      /\ e.wserde = e.serde
      /\ ValIs(e.serde_rt, a) /\ ValIs(e.serde_seq, a)
 
+(* ------------------------------ C11 ------------------------------------ *)
+(* A pair event carries the same call recorded in the unchecked (u) and     *)
+(* checked (c) build profiles.  Every outcome slot must be identical, or    *)
+(* the checked build panics where the documentation reserves a panic: an    *)
+(* un-prefixed form whose exact result does not fit, or a zero divisor.     *)
+PairSlots(ou, oc, Allowed(_)) ==
+  /\ Len(ou) = Len(oc)
+  /\ \A i \in 1..Len(ou) : ou[i] = oc[i] \/ (IsPanic(oc[i]) /\ ~IsPanic(ou[i]) /\ Allowed(i))
+SameCall(u, c) == [x \in (DOMAIN u) \ {"pr", "o", "o2", "r", "it"} |-> u[x]] = [x \in (DOMAIN c) \ {"pr", "o", "o2", "r", "it"} |-> c[x]]
+AcceptPair(e) ==
+  LET u == e.u  c == e.c IN
+  /\ u.k = c.k
+  /\ CASE u.k \in {"bin", "bini", "un"} ->
+             LET x == ArithExact(u) IN
+             /\ SameCall(u, c)
+             /\ PairSlots(u.o, c.o, LAMBDA i : i = 1 /\ (x.zd \/ ~Fits(x.R, u.L)
+                                                       \/ (u.op \in {"int", "frac"} /\ LI(u.L) = 0)))
+       [] u.k = "conv" ->
+             LET x == Exact(ConvR(ZJ(u.a), LF(u.A), LF(u.B))) IN
+             /\ SameCall(u, c)
+             /\ PairSlots(u.o, c.o, LAMBDA i : i = 1 /\ ~Fits(x.R, u.B))
+             /\ PairSlots(u.o2, c.o2, LAMBDA i : i = 1 /\ ~Fits(x.R, u.B))
+       [] u.k = "f2x" ->
+             LET fl == FDec(ZJ(u.fb), u.ft)
+                 ok(i) == i = 1 /\ fl.cls = "fin" /\ ~Fits(FloatToFixR(fl, LF(u.B)), u.B) IN
+             /\ SameCall(u, c)
+             /\ PairSlots(u.o, c.o, ok) /\ PairSlots(u.o2, c.o2, ok)
+       [] u.k \in {"cmp", "cmpf", "ord", "from", "x2f", "codec"} -> [x \in (DOMAIN u) \ {"pr"} |-> u[x]] = [x \in (DOMAIN c) \ {"pr"} |-> c[x]]
+       [] u.k \in {"wreset", "wload", "w"} -> [x \in (DOMAIN u) \ {"pr"} |-> u[x]] = [x \in (DOMAIN c) \ {"pr"} |-> c[x]]
+
 Accept(e, P) ==
   CASE e.k \in {"bin", "bini", "un"} -> AcceptArith(e, P)
+    [] e.k = "pair"  -> AcceptPair(e)
     [] e.k = "cmp"   -> AcceptCmp(e)
     [] e.k = "cmpf"  -> AcceptCmpF(e)
     [] e.k = "ord"   -> AcceptOrd(e)
@@ -101,6 +132,14 @@ Deviation(e, P) ==
   IF P = "C07" /\ e.k \in {"bin", "bini"} /\ e.op \in {"div_euclid", "div_euclid_int"}
      /\ ~ZIsZero(IF e.k = "bin" THEN ZJ(e.b) ELSE ZJ(e.n))
      /\ CodedFormsMatch(e.k, e.o, ZJ(e.a), IF e.k = "bin" THEN ZJ(e.b) ELSE ZJ(e.n), e.L, e.pr)
+  THEN "div_euclid_as_coded"
+  ELSE IF P = "C11" /\ e.k = "pair" /\ e.u.k \in {"bin", "bini"} /\ e.u.op \in {"div_euclid", "div_euclid_int"}
+          /\ LET u == e.u  c == e.c
+                 b == IF u.k = "bin" THEN ZJ(u.b) ELSE ZJ(u.n) IN
+             /\ ~ZIsZero(b)
+             /\ SameCall(u, c)
+             \* the plain form panics with overflow checks exactly where the as-coded design overflows
+             /\ PairSlots(u.o, c.o, LAMBDA i : i = 1 /\ CodedPlainPanics(u.k, ZJ(u.a), b, u.L))
   THEN "div_euclid_as_coded"
   ELSE ""
 =============================================================================
